@@ -32,12 +32,8 @@ theorem memberObjective_documented (sbs : Bool) (T : Nat) (val : Val) (goals pat
     memberObjective sbs T val goals pathGoals m
       = ((((indexed goals).filter (fun gj => !gj.1.critical)).map (docPoint val m)).sum
           + (((indexed pathGoals).filter (fun gj => !gj.1.critical)).map (docPath sbs T val m)).sum)
-        / (if sbs then (nGoalsDoc goals pathGoals : Rat) else 1) := by
-  simp only [memberObjective, gpObjective_eq, nObjectives_eq, vertcat_sum]
-  rw [sum_map_div', sum_comm']
-  simp only [objVec_point_doc, objVec_path_doc]
-  rw [sum_filter', sum_filter']
-  ring
+        / (if sbs then (nGoalsDoc goals pathGoals : Rat) else 1) :=
+  memberObjective_doc sbs T val goals pathGoals m
 
 /-- **The assembled objective is the documented one**, for every goal set (scalar / vector, target /
     minimisation / critical goals, any target shapes), every number of time steps and members, any
@@ -46,11 +42,8 @@ theorem memberObjective_documented (sbs : Bool) (T : Nat) (val : Val) (goals pat
     `v` = epsilon (target goals) or `f / nominal` (minimisation goals). -/
 theorem C03_subproblem_is_documented (sbs : Bool) (T : Nat) (probs : List Rat) (val : Val)
     (goals pathGoals : List Goal) :
-    objective sbs T probs val goals pathGoals = documented sbs T probs val goals pathGoals := by
-  unfold objective documented
-  apply sum_map_congr'
-  intro pm _
-  rw [memberObjective_documented]; ring
+    objective sbs T probs val goals pathGoals = documented sbs T probs val goals pathGoals :=
+  objective_eq_documented sbs T probs val goals pathGoals
 
 /-- the coefficient table printed by the driver (one term per goal component, member and time
     step, divisors applied in the code's order) evaluates to the assembled objective -/
